@@ -25,6 +25,8 @@ mcvars == <<req, env>>
 
 B(h)        == [form |-> "ok", hex |-> h, n |-> Len(h) \div 2, chars |-> Len(h)]
 Pre(h)      == [form |-> "prefixed", hex |-> h, n |-> Len(h) \div 2, chars |-> Len(h) + 2]
+PreX(h)     == [form |-> "prefixedX", hex |-> h, n |-> Len(h) \div 2, chars |-> Len(h) + 2]
+Sp(rec, c)  == [cs |-> c] @@ rec                                  \* the same value spelled in another letter case
 Bad(f, c)   == [form |-> f, hex |-> "", n |-> 0, chars |-> c]
 RECURSIVE Rep(_, _)
 Rep(s, k)   == IF k = 0 THEN "" ELSE IF k % 2 = 0 THEN Rep(s \o s, k \div 2) ELSE s \o Rep(s \o s, k \div 2)   \* s repeated k times
@@ -33,6 +35,10 @@ Pat(k)      == IF k = 0 THEN "" ELSE Bytes("00", k - 1) \o "01"  \* 00..01, k by
 
 Key(i)      == B(Zeros(36) \o HexN(i, 4))                         \* the i-th guardian address (20 bytes)
 Keys(n)     == [i \in 1..n |-> Key(i)]
+KeyA        == B("5aaeb6053f3e94c9b9a09f33669435e7ef1beaed")      \* keys with letters: their spelling can vary
+KeyB        == B("fb6916095ca1df60bb79ce92ce3ea74c37c5d359")
+Spellings(k) == {k, Sp(k, "upper"), Sp(k, "mixed"), Pre(k.hex), Sp(Pre(k.hex), "upper"), Sp(Pre(k.hex), "mixed"),
+                 PreX(k.hex), Sp(PreX(k.hex), "upper"), Sp(PreX(k.hex), "mixed")}
 Xs(s)       == [n |-> Len(s), pat |-> "explicit", xs |-> s]
 Gen(n, p)   == [n |-> n, pat |-> p, xs |-> <<>>]
 
@@ -66,6 +72,11 @@ Modules == {TokenBridge, B("436f7265"), B(""), B("41"), Text32, B(Bytes("41", 33
 Guardians == {Keys(0), Keys(1), Keys(2), Keys(19), Keys(20), Keys(255), Keys(256),
               <<Key(1), Key(1)>>, <<Key(1), Pre(Key(2).hex)>>, <<Key(1), Bad("nonhex", 40)>>, <<Key(1), Bad("odd", 39)>>,
               <<Key(1), B(Pat(19))>>, <<Key(1), B(Pat(21))>>, <<Key(1), B(Pat(32))>>}
+             \* one guardian spelled in every accepted way: alone (same 20 payload bytes), next to another guardian,
+             \* and twice in two different spellings (a repeated guardian: must be rejected)
+             \cup {<<x>> : x \in Spellings(KeyA)} \cup {<<KeyB, x>> : x \in Spellings(KeyA)}
+             \cup {<<x, y>> : x \in {KeyA, Sp(KeyA, "mixed"), Pre(KeyA.hex)}, y \in Spellings(KeyA)}
+             \cup {<<x, KeyB, y>> : x \in {KeyA, Sp(Pre(KeyA.hex), "mixed")}, y \in {Sp(KeyA, "upper"), Pre(KeyA.hex), Sp(PreX(KeyA.hex), "mixed")}}
 SeqLists == {Xs(<<>>), Xs(<<"0000000000000000">>), Xs(<<"ffffffffffffffff">>), Xs(<<"0000000000000001", "8000000000000000">>),
              Xs(<<"0000000000000001", "0000000000000001">>), Gen(3, "idx"), Gen(2, "ff")}
 BigSeqLists == {Gen(255, "idx"), Gen(256, "idx"), Gen(65535, "idx"), Gen(65536, "idx"), Gen(65537, "ff")}
